@@ -6,9 +6,9 @@
 (* (vnacal_new(3)).                                                        *)
 (*                                                                         *)
 (* A configuration is a record                                             *)
-(*   [ty, p, topo, nu, lim, pt, et, me]                                    *)
+(*   [ty, p, k, topo, nu, lim, pt, et, me]                                 *)
 (* ty   error-term type                                                    *)
-(* p    ports (p x p calibration)                                          *)
+(* p    ports;  k  smaller dimension (k = p: p x p; else see RowsOf)       *)
 (* topo family of the standard set (below)                                 *)
 (* nu   number of unknown + correlated parameters                          *)
 (* lim  iteration limit                                                    *)
@@ -59,6 +59,16 @@
 (*         known vector parameters given on their own frequency grids and  *)
 (*         strongly frequency dependent (truth = the vector's value)       *)
 (*   PRIORV PRIOR with such a vector as the known value                    *)
+(*   RLINE rectangular calibrations (k < p): the known base on every port  *)
+(*         pair (it determines every error term of the rectangular layout  *)
+(*         and observes every leakage cell) + nu lines from port 1 to      *)
+(*         later ports, each matched and with its own unknown reciprocal   *)
+(*         transmission (S1b = Sb1 = u: an unknown through / line).  The   *)
+(*         unknown sits in off-diagonal and lower S cells.  Such           *)
+(*         calibrations cannot be applied to a square measurement; the     *)
+(*         "recovered" observation is the residual of the error terms      *)
+(*         written by vnacal_save in the documented equation for an        *)
+(*         independent simulated device                                    *)
 (*   PRIOR one port: short, open and a reflect whose parameter is          *)
 (*         correlated with a known value (its truth): the error terms are  *)
 (*         exactly determined and the parameter is held by its prior only  *)
@@ -69,7 +79,9 @@ Types    == {"T8", "U8", "TE10", "UE10", "T16", "U16", "UE14", "E12"}
 EightTen == {"T8", "U8", "TE10", "UE10"}
 Sixteen  == {"T16", "U16"}
 Topos    == {"TRL", "TRLX", "SOLR", "REFL", "SREF", "LINE", "CORR", "FEW",
-             "WEAK", "PRIOR", "TRM", "TRLM", "SHORT1", "CORRV", "PRIORV"}
+             "WEAK", "PRIOR", "TRM", "TRLM", "SHORT1", "CORRV", "PRIORV",
+             "RLINE"}
+TTypes   == {"T8", "TE10", "T16"}
 Limits   == {1, 2, 3, 5, 30, 100}
 TolExps  == {4, 6, 8, 10, 12}
 TolPairs == {<<e, e>> : e \in TolExps} \cup
@@ -80,12 +92,20 @@ UnknownsOf(topo) ==
     CASE topo \in {"TRL", "TRLX", "FEW", "TRM", "TRLM"} -> {2}
       [] topo \in {"SOLR", "PRIOR", "PRIORV"} -> {1}
       [] topo \in {"CORR", "WEAK", "SHORT1"} -> {2, 3}
-      [] topo = "CORRV"           -> {1, 2}
+      [] topo \in {"CORRV", "RLINE"} -> {1, 2}
       [] OTHER                    -> {1, 2, 3}
 
-(* which (type, ports, family) combinations exist *)
-Shape(ty, p, topo) ==
-    /\ ty \in Types /\ p \in 1..3 /\ topo \in Topos
+(* Dimensions: p ports; k is the smaller dimension of the calibration.     *)
+(* k = p: square p x p.  k < p: rectangular -- vnacal_new(3): more columns *)
+(* than rows needs T terms (k x p), more rows than columns U or E12 terms  *)
+(* (p x k).                                                                *)
+RowsOf(c) == IF c.k = c.p \/ c.ty \notin TTypes THEN c.p ELSE c.k
+ColsOf(c) == IF c.k = c.p \/ c.ty \in TTypes THEN c.p ELSE c.k
+
+(* which (type, ports, smaller dimension, family) combinations exist *)
+Shape(ty, p, k, topo) ==
+    /\ ty \in Types /\ p \in 1..3 /\ k \in 1..p /\ topo \in Topos
+    /\ (topo = "RLINE") <=> (k < p)
     /\ topo \in {"TRL", "TRLX", "FEW", "TRM", "TRLM"} => ty \in EightTen /\ p = 2
     /\ topo = "SHORT1" => (p = 1 \/ (p = 2 /\ ty \in EightTen))
     /\ topo = "WEAK" => p <= 2
@@ -95,8 +115,9 @@ Shape(ty, p, topo) ==
     /\ p = 3 => ty \notin Sixteen
 
 IsConfig(c) ==
-    /\ Shape(c.ty, c.p, c.topo)
+    /\ Shape(c.ty, c.p, c.k, c.topo)
     /\ c.nu \in UnknownsOf(c.topo)
+    /\ (c.topo = "RLINE" /\ c.nu = 2) => c.p = 3
     /\ c.lim \in Limits
     /\ <<c.pt, c.et>> \in TolPairs
     /\ c.me \in {0, 1}
@@ -105,8 +126,9 @@ IsConfig(c) ==
     /\ (c.topo = "SREF" /\ c.ty \in Sixteen /\ c.p > 1) => c.me = 0
 
 Configs ==
-    {c \in [ty : Types, p : 1..3, topo : Topos, nu : 1..3, lim : Limits,
-            pt : TolExps, et : TolExps, me : {0, 1}] : IsConfig(c)}
+    {c \in [ty : Types, p : 1..3, k : 1..3, topo : Topos, nu : 1..3,
+            lim : Limits, pt : TolExps, et : TolExps, me : {0, 1}] :
+        (c.k = c.p \/ c.topo = "RLINE") /\ IsConfig(c)}
 
 (* vnacal_new(3): "two-port TRL ... has an analytical solution"; "if we're *)
 (* modeling measurement errors the solution is always iterative"           *)
